@@ -7,7 +7,7 @@ import re
 from . import smt
 from .smt import T, TRUE, FALSE, And, Or, Not, Implies, Eq, Ite, Int, Add, Sub, Lt, Le, Select, Store, ForAll, Exists, app
 from .symex import (Engine, Unsupported, State, Outcome, V, VStr, VBool, VInt, VNone, VOpt, VTuple, VList, VSet, VDict,
-                    VRef, VExc, VOpaque, veq, vis, truthy, vite, ty_of, parse_ty, FIELDS, REFTUPLE, REF_SORT)
+                    VRef, VExc, VOpaque, VKwargs, veq, vis, truthy, vite, ty_of, parse_ty, FIELDS, REFTUPLE, REF_SORT)
 
 SKIP_CALL_PREFIXES = ("logger.", "warnings.warn", "logging.")
 MAX_PATHS = 4000
@@ -66,6 +66,8 @@ class Executor(Engine):
                 return f"ctor.{n}"
             if n == "cls" and self.cur_class in ("Converter", "Record"):
                 return f"ctor.{self.cur_class}"
+            if n == "_prepare":
+                return "lib._prepare"
             if n == "sorted":
                 return "lib.sorted"
             if n == "partial":
@@ -96,8 +98,14 @@ class Executor(Engine):
     # ------------------------------------------------------------------ expression evaluation (code mode)
     def cev(self, node, st, catching=()):
         """Code-mode evaluation: list of (state, V | Outcome(raise))."""
+        if isinstance(node, ast.ListComp):
+            node = self.static_isinstance(node, st)
+        if isinstance(node, ast.DictComp) and self.is_sorted_values_dictcomp(node):
+            return self.sorted_values_dictcomp(node, st, catching)
         if isinstance(node, ast.ListComp) and self.is_copy_comprehension(node):
             return self.copy_comprehension(node, st, catching)
+        if isinstance(node, ast.ListComp) and self.is_ctor_comprehension(node):
+            return self.ctor_comprehension(node, st, catching)
         if not self.has_contracted_call(node):
             return self.pure_eval(node, st, catching)
         if isinstance(node, ast.Call) and self.resolve_call(node, st) is not None:
@@ -184,6 +192,188 @@ class Executor(Engine):
             outs.append((s1, L))
         return outs
 
+    def is_sorted_values_dictcomp(self, node):
+        """{k: sorted(v) for k, v in <dict>.items()}"""
+        if len(node.generators) != 1 or node.generators[0].ifs:
+            return False
+        g = node.generators[0]
+        t = g.target
+        return (isinstance(t, ast.Tuple) and len(t.elts) == 2 and all(isinstance(x, ast.Name) for x in t.elts)
+                and isinstance(node.key, ast.Name) and node.key.id == t.elts[0].id
+                and isinstance(node.value, ast.Call) and isinstance(node.value.func, ast.Name) and node.value.func.id == "sorted"
+                and len(node.value.args) == 1 and not node.value.keywords
+                and isinstance(node.value.args[0], ast.Name) and node.value.args[0].id == t.elts[1].id
+                and isinstance(g.iter, ast.Call) and isinstance(g.iter.func, ast.Attribute) and g.iter.func.attr == "items" and not g.iter.args)
+
+    def sorted_values_dictcomp(self, node, st, catching):
+        """Same keys; each value is an ordered permutation of the old value (one index bijection per key)."""
+        c = self.ctx
+        c.trusted.add("sorted()/list.sort(): result is a permutation of the input ordered by the key (stability not used)")
+        outs = []
+        for s1, d in self.cev(node.generators[0].iter.func.value, st, catching):
+            if isinstance(d, Outcome):
+                outs.append((s1, d))
+                continue
+            if isinstance(d, VOpt):
+                d = d.val
+            if not (isinstance(d, VDict) and d.kty == "str" and d.vty == ("list", "str")):
+                raise Unsupported("sorted-values comprehension over " + type(d).__name__)
+            N = c.fresh("sortedvals", ("dict", d.kty, d.vty))
+            pi = c.fun("kperm", [c.sort(d.kty), "Int"], "Int")
+            inv = c.fun("kperminv", [c.sort(d.kty), "Int"], "Int")
+            k = c.bvar("k", c.sort(d.kty))
+            kv = c.wrap(k, d.kty)
+            i, j = c.bvar("i", "Int"), c.bvar("j", "Int")
+            P_ = lambda t: app(pi, k, t, sort="Int")
+            Q_ = lambda t: app(inv, k, t, sort="Int")
+            rng = lambda t, n: And(Le(Int(0), t), Lt(t, n))
+            old_, new_ = d.get(kv), N.get(kv)
+            facts = [ForAll([k], Eq(N.has(kv), d.has(kv))),
+                     ForAll([k], Implies(d.has(kv), Eq(new_.n, old_.n))),
+                     ForAll([k, i], Implies(And(d.has(kv), rng(i, new_.n)),
+                                            And(rng(P_(i), old_.n), Eq(Q_(P_(i)), i), veq(c, new_.at(i), old_.at(P_(i)))))),
+                     ForAll([k, i], Implies(And(d.has(kv), rng(i, old_.n)),
+                                            And(rng(Q_(i), new_.n), Eq(P_(Q_(i)), i), veq(c, new_.at(Q_(i)), old_.at(i))))),
+                     ForAll([k, i, j], Implies(And(d.has(kv), rng(i, new_.n), rng(j, new_.n), Lt(i, j)),
+                                               app("str_le", new_.at(i).t, new_.at(j).t, sort="Bool")))]
+            for f_ in facts:
+                s1 = s1.assume(f_)
+            outs.append((s1, N))
+        return outs
+
+    def static_isinstance(self, node, st):
+        """[a if isinstance(x, C) else b for x in xs] where xs is declared list[C'] : the test is decided by the
+        declared element type (objects are of exactly their annotated class), so only one arm is code that runs."""
+        if len(node.generators) != 1 or not isinstance(node.generators[0].target, ast.Name):
+            return node
+        g = node.generators[0]
+        it = g.iter
+        if isinstance(it, ast.Call) and isinstance(it.func, ast.Name) and it.func.id == "_prepare" and len(it.args) == 1:
+            it = it.args[0]
+        xs = st.env.get(it.id) if isinstance(it, ast.Name) else None
+        if isinstance(xs, VOpt):
+            xs = xs.val
+        if not isinstance(xs, VList) or xs.ety not in FIELDS:
+            return node
+        tname, ety = g.target.id, xs.ety
+        hit = []
+
+        class Simp(ast.NodeTransformer):
+            def visit_IfExp(inner, n):
+                t_ = n.test
+                if (isinstance(t_, ast.Call) and isinstance(t_.func, ast.Name) and t_.func.id == "isinstance" and len(t_.args) == 2
+                        and isinstance(t_.args[0], ast.Name) and t_.args[0].id == tname
+                        and isinstance(t_.args[1], ast.Name) and t_.args[1].id in FIELDS):
+                    hit.append(1)
+                    return inner.visit(n.body if t_.args[1].id == ety else n.orelse)
+                inner.generic_visit(n)
+                return n
+        import copy as _copy
+        new = Simp().visit(_copy.deepcopy(node))
+        if hit:
+            self.ctx.trusted.add("isinstance(x, C) decided by the annotated type of x")
+            return ast.fix_missing_locations(new)
+        return node
+
+    def is_ctor_comprehension(self, node):
+        """[Record(k=e, ...) for <targets> in <iterable>]  (no filter; keyword arguments that are pure expressions)"""
+        if len(node.generators) != 1 or node.generators[0].ifs:
+            return False
+        e_ = node.elt
+        return (isinstance(e_, ast.Call) and isinstance(e_.func, ast.Name) and e_.func.id == "Record" and not e_.args
+                and all(kw.arg in FIELDS["Record"] for kw in e_.keywords)
+                and not any(self.has_contracted_call(kw.value) for kw in e_.keywords))
+
+    def ctor_comprehension(self, node, st, catching):
+        """One fresh, validated Record per source element, in source order (explicit bijection = identity on indices)."""
+        c = self.ctx
+        g = node.generators[0]
+        c.trusted.add("pydantic: Record(**kw) runs the field validators, copies list arguments, raises ValidationError (a ValueError) when a validator raises")
+        outs = []
+        for s0, xs in self.eval_iterable(g.iter, st, catching):
+            if isinstance(xs, Outcome):
+                outs.append((s0, xs))
+                continue
+            if isinstance(xs, VOpt):
+                xs = xs.val
+            if not isinstance(xs, VList):
+                raise Unsupported("constructor comprehension over " + type(xs).__name__)
+
+            def fields_at(i, s0=s0, xs=xs):
+                env2 = dict(s0.env)
+                vals = {}
+                self.spec_sides = []
+                try:
+                    env2.update(self.bind_target(g.target, xs.at(i)))
+                    for kw in node.elt.keywords:
+                        vals[kw.arg] = self.ev(kw.value, env2, s0)
+                    sides = self.spec_sides
+                finally:
+                    self.spec_sides = None
+                return vals, sides
+            k = c.bvar("k", "Int")
+            rng = lambda t, n: And(Le(Int(0), t), Lt(t, n))
+            c.bound.append(k)
+            old_guards = list(getattr(self, "_guards", []))
+            self._guards = old_guards + [rng(k, xs.n)]
+            try:
+                vals_k, sides_k = fields_at(k)
+            finally:
+                c.bound.pop()
+                self._guards = old_guards
+            if "prefix" not in vals_k or "uri_prefix" not in vals_k:
+                raise Unsupported("Record(...) without prefix / uri_prefix")
+            # safety of the argument expressions for every element (e.g. uri_prefixes[0]); `side` already quantified over k
+            for fact, exc in sides_k:
+                c.oblige(f"{self.where(node)}:safety:{exc} in a constructor comprehension", "safety", s0.pc, fact, self.where(node))
+                s0 = s0.assume(fact)
+            empty = VList(Int(0), lambda i: VStr(T("empty", "Str")), "str")
+            def full(vals):
+                v = dict(vals)
+                v.setdefault("prefix_synonyms", empty)
+                v.setdefault("uri_prefix_synonyms", empty)
+                v.setdefault("pattern", VNone())
+                return v
+            vk = full(vals_k)
+            bad_k = Or(self.contains(vk["prefix_synonyms"], vk["prefix"], s0), self.contains(vk["uri_prefix_synonyms"], vk["uri_prefix"], s0))
+            some_bad = Exists([k], And(rng(k, xs.n), bad_k))
+            if not smt.is_false(some_bad):
+                outs.append((s0.assume(some_bad), Outcome("raise", exc="ValidationError")))
+            s1 = s0.assume(Not(some_bad)).copy()
+            L = c.fresh("recs", ("list", "Record"))
+            a0 = s1.alloc_arr(c, "Record")
+            a1 = c.const("A_Record", a0.sort)
+            s1.heap[("alloc", "Record")] = a1
+            x = c.bvar("x", "Rec")
+            k2 = c.bvar("k2", "Int")
+            def rep_term(v):
+                if isinstance(v, VTuple) and v.items:
+                    return rep_term(v.items[0])
+                t_ = getattr(v, "t", None)
+                return t_ if isinstance(t_, T) and k.s in t_.s else None
+            src_t = rep_term(xs.at(k))
+            # the new record at position k is also named by its source element (so that facts about a source key reach it)
+            kpats = [[L.at(k).t]] + ([[src_t]] if src_t is not None else [])
+            facts = [Eq(L.n, xs.n), ForAll([x], Implies(Select(a0, x), Select(a1, x))),
+                     ForAll([k], Implies(rng(k, L.n), And(Not(Select(a0, L.at(k).t)), Select(a1, L.at(k).t))), pats=kpats),
+                     ForAll([k, k2], Implies(And(rng(k, L.n), rng(k2, L.n), Not(Eq(k, k2))), Not(Eq(L.at(k).t, L.at(k2).t))))]
+            for f in FIELDS["Record"]:
+                h0 = s1.harr(c, "Record", f)
+                h1 = c.const(f"H_Record_{f}", h0.sort)
+                s1.heap[("Record", f)] = h1
+                facts.append(ForAll([x], Implies(Select(a0, x), Eq(Select(h1, x), Select(h0, x)))))
+                fv = c.wrap(Select(h1, L.at(k).t), FIELDS["Record"][f])
+                c.bound.append(k)
+                try:
+                    eqf = veq(c, fv, vk[f])
+                finally:
+                    c.bound.pop()
+                facts.append(ForAll([k], Implies(rng(k, L.n), eqf), pats=kpats))
+            for f_ in facts:
+                s1 = s1.assume(f_)
+            outs.append((s1, L))
+        return outs
+
     def cev_boolop(self, node, st, catching):
         is_and = isinstance(node.op, ast.And)
         results = []
@@ -234,7 +424,12 @@ class Executor(Engine):
 
             def visit_ListComp(inner, n):
                 if self.has_contracted_call(n):
-                    raise Unsupported("contracted call inside a comprehension")
+                    # the first iterable is evaluated once, before anything else of the comprehension: hoist calls in it
+                    g0 = n.generators[0]
+                    rest = [getattr(n, "elt", None), getattr(n, "key", None), getattr(n, "value", None)] + list(g0.ifs) + [g0.target] + list(n.generators[1:])
+                    if any(r is not None and self.has_contracted_call(r) for r in rest):
+                        raise Unsupported("contracted call inside a comprehension")
+                    g0.iter = inner.visit(g0.iter)
                 return n
             visit_SetComp = visit_DictComp = visit_GeneratorExp = visit_ListComp
 
@@ -309,7 +504,11 @@ class Executor(Engine):
                 states = self._bind_one(states, pos_params[i], an, catching)
         for kw in call.keywords:
             if kw.arg is None:
-                raise Unsupported("**kwargs call")
+                kwv = st.env.get(kw.value.id) if isinstance(kw.value, ast.Name) else None
+                if not isinstance(kwv, VKwargs):
+                    raise Unsupported("**kwargs call")
+                states = [(s_, (b_ if isinstance(b_, Outcome) else {**b_, **kwv.items})) for s_, b_ in states]
+                continue
             states = self._bind_one(states, kw.arg, kw.value, catching)
         # defaults
         defaults = {}
@@ -319,6 +518,15 @@ class Executor(Engine):
         for p, d in zip(a.kwonlyargs, a.kw_defaults):
             if d is not None:
                 defaults[p.arg] = d
+        if a.kwarg is not None and self.repo.funcs[qualname][2] == "Converter" and "api.Converter.__init__" in self.repo.funcs:
+            # keyword arguments forwarded to Converter.__init__: those not passed take the constructor's defaults
+            ia = self.repo.funcs["api.Converter.__init__"][0].args
+            for p, d in zip(ia.kwonlyargs, ia.kw_defaults):
+                if d is not None:
+                    defaults.setdefault(p.arg, d)
+            ipa = ia.posonlyargs + ia.args
+            for p, d in zip(ipa[len(ipa) - len(ia.defaults):], ia.defaults):
+                defaults.setdefault(p.arg, d)
         out = []
         for s, b in states:
             if isinstance(b, Outcome):
@@ -352,8 +560,10 @@ class Executor(Engine):
         if q.startswith("ctor."):
             return self.do_ctor(q[5:], call, st, catching)
         recv = None
-        if isinstance(call.func, ast.Attribute) and isinstance(call.func.value, ast.Name) and ("api", call.func.value.id) in self.repo.classes \
-                and call.func.value.id not in st.env:
+        if isinstance(call.func, ast.Attribute) and isinstance(call.func.value, ast.Name) and call.func.value.id not in st.env \
+                and (("api", call.func.value.id) in self.repo.classes
+                     or (call.func.value.id == "cls" and self.cur_class is not None and q == f"api.{self.cur_class}.{call.func.attr}")):
+            # call through the class (cls.m(...) inside a classmethod: static dispatch to the defining class)
             outs = []
             for s, b in self.bind_args(q, call, None, st, catching):
                 outs += [(s, b)] if isinstance(b, Outcome) else self.apply_contract(q, b, s, self.where(call))
@@ -653,6 +863,20 @@ class Executor(Engine):
                     reverse = ast.literal_eval(kw.value)
                 else:
                     raise Unsupported("sorted keyword")
+            a0 = call.args[0]
+            if (key_fn is None and not reverse and isinstance(a0, ast.Call) and isinstance(a0.func, ast.Attribute) and a0.func.attr == "items"
+                    and not a0.args and not self.has_contracted_call(a0.func.value)):
+                outs = []
+                for s1, d in self.pure_eval(a0.func.value, st, catching):
+                    if isinstance(d, VOpt):
+                        d = d.val
+                    if isinstance(d, VDict) and d.kty == "str":
+                        # sorted(d.items()): keys are distinct, so tuple order is key order
+                        sk = self.sorted_list(self.dict_as_list(d, "keys"))
+                        outs.append((s1, VList(sk.n, lambda t, d=d, sk=sk: VTuple([sk.at(t), d.get(sk.at(t))]), ("tuple", (d.kty, d.vty), None))))
+                    else:
+                        raise Unsupported("sorted(.items()) of " + type(d).__name__)
+                return outs
             outs = []
             for s1, v in self.cev(call.args[0], st, catching):
                 if isinstance(v, Outcome):
@@ -667,6 +891,28 @@ class Executor(Engine):
                 if not isinstance(v, VList):
                     raise Unsupported("sorted() of " + type(v).__name__)
                 outs.append((s1, self.sorted_list(v, key_fn, reverse)))
+            return outs
+        if q == "lib._prepare":
+            # _prepare(data): `isinstance(data, Path)` / `isinstance(data, str)` branches read files or URLs; for any other
+            # object the body is `else: return data` (checked on the current source). Only that branch is in scope here.
+            fn = self.repo.funcs.get("api._prepare", (None,))[0]
+            ok = False
+            if fn is not None and len(call.args) == 1 and not call.keywords:
+                last = fn.body[-1]
+                while isinstance(last, ast.If) and last.orelse:
+                    tail = last.orelse
+                    last = tail[-1] if not (len(tail) == 1 and isinstance(tail[0], ast.If)) else tail[0]
+                    if isinstance(last, ast.Return):
+                        break
+                ok = isinstance(last, ast.Return) and isinstance(last.value, ast.Name) and last.value.id == fn.args.args[0].arg
+            if not ok:
+                raise Unsupported("_prepare no longer ends in `else: return data`")
+            c.trusted.add("_prepare(obj) returns obj for in-memory objects (its file / URL branches are outside the proof: bounded lemma C13.path_str_object_agree)")
+            outs = []
+            for s1, v in self.cev(call.args[0], st, catching):
+                if not isinstance(v, Outcome) and isinstance(v, (VStr,)):
+                    raise Unsupported("_prepare of a string (file / URL branch)")
+                outs.append((s1, v))
             return outs
         if q == "lib.StringTrie":
             c.trusted.add("pytrie.StringTrie(mapping) stores exactly the items of the mapping (a copy)")
@@ -839,7 +1085,25 @@ class Executor(Engine):
         m = getattr(self, "st_" + type(s).__name__, None)
         if m is None:
             raise Unsupported(f"statement {type(s).__name__}")
-        return m(s, st, catching)
+        try:
+            return m(s, st, catching)
+        except Unsupported as e:
+            # a construct outside the subset only matters if the statement can be reached: a path whose condition is
+            # refuted (e.g. the `expand` branch under `requires(not expand)`) is dropped, and the drop is recorded
+            if self.path_dead(st):
+                self.ctx.dropped.add(f"{self.where(s)}: unreachable under the precondition, not translated ({e})")
+                return []
+            raise
+
+    def path_dead(self, st):
+        from . import prove as _prove
+        from .symex import Obligation
+        try:
+            ob = Obligation(f"{self.cur_func}:reachability", "canary", st.pc, FALSE, self.cur_func)
+            r = smt.solve(_prove.query_text(self.ctx, ob), 5)
+            return r["result"] == "unsat"
+        except Exception:
+            return False
 
     def st_Pass(self, s, st, catching):
         return [(st, Outcome("normal"))]
@@ -982,6 +1246,14 @@ class Executor(Engine):
                 for k, t in enumerate(target.elts):
                     st = self.assign_target(t, v.at(Int(k)), st)
                 return st
+            if (isinstance(v, VList) and len(target.elts) == 2 and not isinstance(target.elts[0], ast.Starred)
+                    and isinstance(target.elts[1], ast.Starred)):
+                # first, *rest = lst : ValueError when the list is empty; rest is the tail as a new list
+                self.ctx.oblige(f"{self.cur_func}:safety:ValueError:unpack first, *rest", "safety", st.pc, Le(Int(1), v.n), self.cur_func)
+                st = st.assume(Le(Int(1), v.n))
+                st = self.assign_target(target.elts[0], v.at(Int(0)), st)
+                rest = VList(Sub(v.n, Int(1)), lambda i, v=v: v.at(Add(i, Int(1))), v.ety, shift=(v, Int(1)))
+                return self.assign_target(target.elts[1].value, rest, st)
             raise Unsupported("unpacking shape")
         if isinstance(target, ast.Attribute):
             base = self.ev(target.value, st.env, st)
